@@ -21,8 +21,15 @@ reset by hand}, applied in lock-step to the node and to its twin with caching of
 cleared on failure, hit only when the run would be admitted) — the tree the findings KF-C05-3/4/5 were
 made on, "current" in the names of the theorems about it; `Cfg.proposed` = /repo after b54ba0f (the
 inputs of an admitted run are recorded only when the result of that very run has been processed);
-`Cfg.now` = /repo as it is: b54ba0f + f3b0474 (the done-callback treats KeyboardInterrupt as a failure,
-like a local run does).
+`Cfg.kbdOnly` = + f3b0474 (the done-callback treats KeyboardInterrupt as a failure, like a local run does);
+`Cfg.now` = /repo as it is: + 9a3aae7 (every BaseException that ends the function fails the run, locally and
+in the done-callback).  `Cfg.commit kbd all` covers all of these.
+
+What the full statement `C05_transparent` still assumes: the property's own proviso (the function is
+deterministic and does not mutate its arguments — `beh` is a function of the input) and `NoSubmitHit` (an
+executor submission answered from the cache returns the outputs instead of a future, by design;
+`C05_submit_hit_settles` says what that answer is equal to).  Nothing else: no hypothesis on the history
+(lost jobs, manual resets, cancellations, late completions) and none on the exception kinds.
 
 ## Composite level (`PwVerif.CacheTree`)
 Nested trees of function nodes and composites; `key` = `Composite._internal_cache_key`; a run =
@@ -41,40 +48,42 @@ def Transparent (cfg : Cfg) : Prop :=
     (runOps cfg beh true N.init ops).1.visible = (runOps cfg beh false N.init ops).1.visible
 
 /-- EVERY history over the full alphabet (cancelled, lost, late and interrupted jobs, manual resets
-included), every deterministic function — whether or not the done-callback catches KeyboardInterrupt -/
-theorem C05_transparent_commit (k : Bool) : Transparent (Cfg.commit k) := by
+included), every deterministic function — whichever BaseExceptions the run cycle catches -/
+theorem C05_transparent_commit (k al : Bool) : Transparent (Cfg.commit k al) := by
   intro beh ops hok
-  obtain ⟨h1, h2⟩ := runOps_sim k beh ops N.init N.init (init_sim beh) hok
+  obtain ⟨h1, h2⟩ := runOps_sim k al beh ops N.init N.init (init_sim beh) hok
   refine ⟨h1, ?_⟩
   simp [N.visible, h2.inp, h2.out, h2.running, h2.failed]
 
 /-- /repo as it is now -/
-theorem C05_transparent : Transparent Cfg.now := C05_transparent_commit true
+theorem C05_transparent : Transparent Cfg.now := C05_transparent_commit true true
+
+/-- /repo after f3b0474, before 9a3aae7 -/
+theorem C05_transparent_kbd_only : Transparent Cfg.kbdOnly := C05_transparent_commit true false
 
 /-- /repo after b54ba0f, before f3b0474 -/
-theorem C05_transparent_proposed : Transparent Cfg.proposed := C05_transparent_commit false
+theorem C05_transparent_proposed : Transparent Cfg.proposed := C05_transparent_commit false false
 
 /-- from ANY pair of related states (not only the initial one) -/
-theorem C05_transparent_from (k : Bool) (beh : Nat → Outcome) (ops : List Op) (a b : N) (h : Sim beh a b)
-    (hok : NoSubmitHit (Cfg.commit k) beh a ops) :
-    (runOps (Cfg.commit k) beh true a ops).2 = (runOps (Cfg.commit k) beh false b ops).2 ∧
-    (runOps (Cfg.commit k) beh true a ops).1.visible = (runOps (Cfg.commit k) beh false b ops).1.visible := by
-  obtain ⟨h1, h2⟩ := runOps_sim k beh ops a b h hok
+theorem C05_transparent_from (k al : Bool) (beh : Nat → Outcome) (ops : List Op) (a b : N) (h : Sim beh a b)
+    (hok : NoSubmitHit (Cfg.commit k al) beh a ops) :
+    (runOps (Cfg.commit k al) beh true a ops).2 = (runOps (Cfg.commit k al) beh false b ops).2 ∧
+    (runOps (Cfg.commit k al) beh true a ops).1.visible = (runOps (Cfg.commit k al) beh false b ops).1.visible := by
+  obtain ⟨h1, h2⟩ := runOps_sim k al beh ops a b h hok
   refine ⟨h1, ?_⟩
   simp [N.visible, h2.inp, h2.out, h2.running, h2.failed]
 
 /-- an executor submission answered from the cache = submission + completion on the uncached twin -/
-theorem C05_submit_hit_settles (k : Bool) (beh : Nat → Outcome) (a b : N) (h : Sim beh a b) (hhit : a.hits = true)
+theorem C05_submit_hit_settles (k al : Bool) (beh : Nat → Outcome) (a b : N) (h : Sim beh a b) (hhit : a.hits = true)
     (hq : a.jobs = []) :
-    Sim beh (step (Cfg.commit k) beh true a .submit).1
-      (step (Cfg.commit k) beh false (step (Cfg.commit k) beh false b .submit).1 .complete).1 ∧
-    (step (Cfg.commit k) beh true a .submit).2 =
-      .ret (step (Cfg.commit k) beh false (step (Cfg.commit k) beh false b .submit).1 .complete).1.out :=
-  submit_hit_settles k beh a b h hhit hq
+    Sim beh (step (Cfg.commit k al) beh true a .submit).1
+      (step (Cfg.commit k al) beh false (step (Cfg.commit k al) beh false b .submit).1 .complete).1 ∧
+    (step (Cfg.commit k al) beh true a .submit).2 =
+      .ret (step (Cfg.commit k al) beh false (step (Cfg.commit k al) beh false b .submit).1 .complete).1.out :=
+  submit_hit_settles k al beh a b h hhit hq
 
 /-- /repo as it is now: a job that ends with KeyboardInterrupt takes the failure path (node failed, nothing
-cached, not running) although the exception still leaves the callback; any other BaseException still leaves
-the node neither running nor failed — harmless now, because nothing is cached during a run -/
+cached, not running) although the exception still leaves the callback -/
 theorem C05_interrupted_job_fails (beh : Nat → Outcome) (useCache : Bool) (n : N) (v : Nat) (js : List Nat)
     (hj : n.jobs = v :: js) (hv : beh v = .kbd) :
     (step Cfg.now beh useCache n .complete).2 = .escaped ∧
@@ -82,6 +91,22 @@ theorem C05_interrupted_job_fails (beh : Nat → Outcome) (useCache : Bool) (n :
     (step Cfg.now beh useCache n .complete).1.running = false ∧
     (step Cfg.now beh useCache n .complete).1.cached = none := by
   simp [step, hj, hv, Cfg.now, Cfg.commit, N.fail]
+
+/-- /repo as it is now: any other BaseException ending the function (SystemExit, …) fails the run too — locally (the
+exception is re-raised, the node is failed and no longer running) and in the done-callback -/
+theorem C05_fatal_fails (beh : Nat → Outcome) (useCache : Bool) (n : N) (hr : n.ready = true) (hv : beh n.inp = .fatal)
+    (hmiss : n.cached ≠ some n.inp) :
+    (step Cfg.now beh useCache n .run).2 = .fatal ∧
+    (step Cfg.now beh useCache n .run).1.failed = true ∧
+    (step Cfg.now beh useCache n .run).1.running = false ∧
+    (step Cfg.now beh useCache n .run).1.cached = none ∧
+    ∀ (m : N) (js : List Nat), m.jobs = n.inp :: js →
+      (step Cfg.now beh useCache m .complete).2 = .escaped ∧ (step Cfg.now beh useCache m .complete).1.failed = true ∧
+      (step Cfg.now beh useCache m .complete).1.running = false ∧ (step Cfg.now beh useCache m .complete).1.cached = none := by
+  refine ⟨?_, ?_, ?_, ?_, ?_⟩ <;>
+    first
+    | (intro m js hj; simp [step, hj, hv, Cfg.now, Cfg.commit, N.fail])
+    | (cases useCache <;> simp_all [step, runLike, Cfg.now, Cfg.commit, N.fail])
 
 /-- /repo BEFORE b54ba0f (`Cfg.repaired`): transparent for every history without a manual reset of `running` and without a
 lost job, for functions that raise nothing but `Exception`s — cancellation before start included -/
@@ -202,6 +227,15 @@ example : (runOps Cfg.now behW true N.init [.set 4, .submit, .complete, .run]).2
     (runOps Cfg.proposed behW true N.init [.set 4, .submit, .complete, .run]).2 = [.unit, .future, .escaped, .interrupted] := by
   decide
 example : ∃ n : N, n.jobs = [4] ∧ behW 4 = .kbd := ⟨{ N.init with jobs := [4] }, rfl, rfl⟩
+/-- the fatal history that broke the earlier variants, on /repo as it is now -/
+example : (runOps Cfg.now behW true N.init [.set 5, .run, .resetRunning, .run, .clearFailed, .submit, .complete, .run]).2
+      = [.unit, .fatal, .unit, .readiness, .unit, .future, .escaped, .readiness] ∧
+    (runOps Cfg.now behW false N.init [.set 5, .run, .resetRunning, .run, .clearFailed, .submit, .complete, .run]).2
+      = [.unit, .fatal, .unit, .readiness, .unit, .future, .escaped, .readiness] ∧
+    (runOps Cfg.kbdOnly behW true N.init [.set 5, .run, .resetRunning, .run]).2 = [.unit, .fatal, .unit, .fatal] := by
+  decide
+example : ∃ n : N, n.ready = true ∧ behW n.inp = .fatal ∧ n.cached ≠ some n.inp :=
+  ⟨{ N.init with inp := 5 }, by decide, rfl, by decide⟩
 /-- hypotheses of `C05_current_partial` are satisfiable by a history with a cancellation and a hit -/
 def exTame : List Op := [.set 2, .submit, .cancel, .run, .clearFailed, .run, .run, .set 6, .submit, .complete]
 example : (∀ o ∈ exTame, o.tame = true) ∧ NoSubmitHit Cfg.repaired (fun v => if v == 6 then .procbad else .ok) N.init exTame := by
@@ -405,6 +439,8 @@ end PwVerif.C05
 #print axioms PwVerif.C05.C05_transparent
 #print axioms PwVerif.C05.C05_transparent_commit
 #print axioms PwVerif.C05.C05_transparent_proposed
+#print axioms PwVerif.C05.C05_transparent_kbd_only
+#print axioms PwVerif.C05.C05_fatal_fails
 #print axioms PwVerif.C05.C05_interrupted_job_fails
 #print axioms PwVerif.C05.C05_transparent_from
 #print axioms PwVerif.C05.C05_submit_hit_settles
